@@ -114,5 +114,27 @@ def centreFl (R : Rounding) (pmin c : Rat) (i : Nat) : Rat := R.fl (pmin + R.fl 
 /-- the quotient `point2index` floors: `fl(fl(p − pmin) / c)` -/
 def quotFl (R : Rounding) (pmin c p : Rat) : Rat := R.fl (R.fl (p - pmin) / c)
 
+/-- two roundings: `|fl(fl(y)/c) − y/c| ≤ 3u·|y/c|` -/
+theorem quot_err (R : Rounding) (y c : Rat) (hc : 0 < c) :
+    |R.fl (R.fl y / c) - y / c| ≤ 3 * R.u * |y / c| := by
+  have hu := R.u_nonneg
+  have hu1 : R.u ≤ 1 := le_trans R.u_small (by norm_num)
+  have h1 := R.err y
+  have h2 := R.err (R.fl y / c)
+  have hd : |R.fl y / c - y / c| ≤ R.u * |y / c| := by
+    have e : R.fl y / c - y / c = (R.fl y - y) / c := by field_simp
+    rw [e, abs_div, abs_div, abs_of_pos hc]
+    rw [← mul_div_assoc, div_le_div_iff_of_pos_right hc]
+    exact h1
+  have hq : |R.fl y / c| ≤ (1 + R.u) * |y / c| := abs_le_of_err R.u (y / c) (R.fl y / c) hd
+  have e : R.fl (R.fl y / c) - y / c = (R.fl (R.fl y / c) - R.fl y / c) + (R.fl y / c - y / c) := by ring
+  rw [e]
+  have t := abs_add_le (R.fl (R.fl y / c) - R.fl y / c) (R.fl y / c - y / c)
+  have hn := abs_nonneg (y / c)
+  have : R.u * |R.fl y / c| ≤ R.u * ((1 + R.u) * |y / c|) := mul_le_mul_of_nonneg_left hq hu
+  have h3 : R.u * R.u * |y / c| ≤ R.u * |y / c| := by
+    have : R.u * R.u ≤ R.u := by nlinarith
+    exact mul_le_mul_of_nonneg_right this hn
+  nlinarith
 
 end DFV.C01
